@@ -8,9 +8,9 @@ RULE = ("Hypothesis draws RunSpecs weighted towards ties (constant / plateau obj
         "cost) equals that of some agent of evolution[-1] and no agent of evolution[-1] has a strictly better cost "
         "in the task's direction. Non-trivial = final generation with >= 2 distinct costs or a tie for the best "
         "cost; distinct = SHA-256 of the spec. About 15 % of the cases make the judged run on an optimizer instance that has already been used for an optimize() call on another task (reused instance).")
-ASSUMPTIONS = ["runs that raise are C06's business", "NaN costs compare as never-better"]
+ASSUMPTIONS = ["runs that raise are C06's business", "a final generation that holds a NaN cost is not judged (infinite costs are)"]
 BUDGET = {"quick": 25, "thorough": 400}
-FAM = ("sphere", "abssum", "cosprod", "linear", "altlinear", "constant", "plateau", "plateau")
+FAM = ("sphere", "abssum", "cosprod", "linear", "altlinear", "constant", "plateau", "plateau", "barrier", "logsum")
 
 
 def strategy(optimizer, tier):
@@ -24,6 +24,9 @@ def strategy(optimizer, tier):
 def judge(spec, obs):
     if not obs.ok:
         return [], False, []
+    if any(a.cost != a.cost for a in obs.result.evolution[-1].agents):
+        # an objective that is undefined (NaN) on part of the box: "strictly better" is not defined, nothing is judged
+        return [], False, ["nan_costs_not_judged"]
     vio, distinct, ties = campaign.best_violations(spec, obs, ID)
     return vio, (distinct or ties), (["tie_for_best"] if ties else []) + (["distinct_costs"] if distinct else [])
 
